@@ -19,7 +19,7 @@ def memo_empty(m):
 
 
 HELPER_MODS = ['SdElement._function_string', 'SdElement._equation']
-contract('SdElement._handle_arrayed', trusted=True, props=['C08'], params=dict(self=EL, equation=TRef('object')), returns=BOOL,
+contract('SdElement._handle_arrayed', trusted=True, props=['C08', 'C01'], params=dict(self=EL, equation=TRef('object')), returns=BOOL,
          note='array expansion helper (C10): creates / re-binds sub-elements through their own setters; does not write memo entries')
 contract('SdElement.build_function_string', trusted=True, props=['C08'], params=dict(self=EL),
          note='text generator (contracted under C01/K2): only writes self._function_string', modifies=['SdElement._function_string'])
@@ -54,11 +54,11 @@ def setter_pre(C):
 
 for f, src in (('BPTK_Py/sddsl/element.py', 'Element.equation.setter'), ('BPTK_Py/sddsl/stock.py', 'Stock.equation.setter'),
                ('BPTK_Py/sddsl/flow.py', 'Flow.equation.setter'), ('BPTK_Py/sddsl/constant.py', 'Constant.equation.setter')):
-    contract('SdElement.' + src, file=f, src_name=src, props=['C08'], params=dict(self=EL, equation=TRef('object')),
+    contract('SdElement.' + src, file=f, src_name=src, props=['C08', 'C01'], params=dict(self=EL, equation=TRef('object')),
              requires=setter_pre, ensures=setter_post, modifies=SETTER_MODS,
              raises={'ElementError': lambda C: True}, exc_ensures={})
 
-contract('SdElement.Stock.initial_value.setter', file='BPTK_Py/sddsl/stock.py', src_name='Stock.initial_value.setter', props=['C08'],
+contract('SdElement.Stock.initial_value.setter', file='BPTK_Py/sddsl/stock.py', src_name='Stock.initial_value.setter', props=['C08', 'C01'],
          params=dict(self=EL, initial_value=TRef('object')), requires=setter_pre, ensures=setter_post, modifies=SETTER_MODS + ['SdElement.__initial_value'],
          raises={'ElementError': lambda C: True})
 
